@@ -4,7 +4,7 @@ from spec import paging as SP
 from ..bits import BV, lit
 from ..interp import State
 from ..values import Array, Enum, Opaque, Ptr, Ref, Struct
-from .common import SIZES, adt, bv, fn_site, inner, same, size_ty, sl
+from .common import asm_not_pure, SIZES, adt, bv, fn_site, inner, same, size_ty, sl
 
 LEVEL = 'proof'
 R = 'structures::paging::mapper::recursive_page_table::'
@@ -152,4 +152,5 @@ def run(chk):
         finally:
             I.addr_override = {}
     chk.guard('constructor', 'RecursivePageTable::new', ctor)
+    chk.guard('asm-options', 'CR3 read', lambda: asm_not_pure(chk, chk.I, 'asm-options', ['src/registers/control.rs'], 7))
     chk.floor('obligations', len(chk.obs), 14)
